@@ -390,8 +390,28 @@ def eval_pump(case):
         f.append(Finding("pump", "C19.pump.array_shape", {"shape": np.shape(g)}))
     elif len(scal) == len(vs) and not np.allclose(np.asarray(g, dtype=float), exp, rtol=1e-9, atol=1e-12):
         f.append(Finding("pump", "C19.pump.array_vs_scalar", {"vdot": vs, "array": g, "expected": exp}))
-    return Outcome(findings=f, labels={"pump", "src:" + src["kind"]} | ({"mixed_sign"} if mixed else set())
-                   | ({"clamped"} if clamped else set()), nontrivial=mixed or clamped or any(v < 0 for v in vs), sample=case)
+    labels = {"pump", "src:" + src["kind"]} | ({"mixed_sign"} if mixed else set()) | ({"clamped"} if clamped else set())
+    upd = case.get("update")
+    if upd and not f:
+        # the type is re-parameterised after it has been queried: it must follow its NEW regression polynomial
+        if upd["how"] == "update_std_type":
+            st_.update_std_type(np.array(upd["x"]), np.array(upd["y"]), upd["degree"])
+            reg2 = np.polyfit(upd["x"], upd["y"], upd["degree"])
+        else:
+            reg2 = np.polyfit(upd["x"], upd["y"], upd["degree"])
+            st_.reg_par = np.array(reg2)
+        labels.add("re-parameterised_after_query:" + upd["how"])
+        exp2 = [max(0.0, float(np.polyval(reg2, v * 3600.0))) if v >= 0 else 0.0 for v in vs]
+        for v, e in zip(vs, exp2):
+            g, exc = call(st_.get_pressure, float(v))
+            if exc is not None or not close(g, e, 1e-9, 1e-12):
+                f.append(Finding("pump", "C19.pump.value_after_update", {"v": v, "got": repr(g), "expected": e, "how": upd["how"],
+                                                                         "exc": repr(exc)}))
+                break
+        g, exc = call(st_.get_pressure, arr)
+        if not f and (exc is not None or np.shape(g) != arr.shape or not np.allclose(np.asarray(g, dtype=float), exp2, rtol=1e-9, atol=1e-12)):
+            f.append(Finding("pump", "C19.pump.array_after_update", {"vdot": vs, "array": repr(g), "expected": exp2, "exc": repr(exc)}))
+    return Outcome(findings=f, labels=labels, nontrivial=mixed or clamped or any(v < 0 for v in vs), sample=case)
 
 
 def eval_pipe_types(case):
@@ -637,7 +657,15 @@ def gen_case(draw):
         src = {"kind": "coeffs", "coeffs": [draw(f64(-2e-3, -1e-5)), draw(f64(-0.05, 0.05)), draw(f64(0.5, 10.0))]}
         vmax = 0.1
     vs = draw(st.lists(st.one_of(f64(-vmax, vmax), f64(0.0, vmax), st.just(0.0)), min_size=1, max_size=6))
-    return {"kind": "pump", "source": src, "vdot": vs}
+    upd = None
+    if draw(st.booleans()):
+        n2 = draw(st.integers(3, 6))
+        xs2 = sorted(draw(st.lists(f64(0.0, 300.0), min_size=n2, max_size=n2, unique=True)))
+        if min(b - a for a, b in zip(xs2, xs2[1:])) > 1.0:
+            p2 = draw(f64(1.0, 12.0))
+            upd = {"how": draw(st.sampled_from(["update_std_type", "assign_reg_par"])), "x": xs2,
+                   "y": [p2 * (1 - (x / 320.0) ** 2) + draw(f64(-0.05, 0.05)) for x in xs2], "degree": draw(st.integers(1, 2))}
+    return {"kind": "pump", "source": src, "vdot": vs, "update": upd}
 
 
 def run_shard(coll, tier, seed, shard, nshards, known):
